@@ -13,6 +13,7 @@ class Schema:
         self.r = r
         self.entities = {}     # name -> dict(parents, attrs, tags)
         self.actions = {}      # name -> dict(principals, resources, context)
+        self.enums = {}        # name -> list of declared ids (enumerated entity types: no attributes, parents or tags)
         self.make()
 
     # ---- types: ('prim', name) | ('set', t) | ('rec', {k: (t, optional)}) | ('ent', name)
@@ -40,6 +41,8 @@ class Schema:
             attrs = self.rrec(2, names, r.randrange(1, 6))
             tags = self.rtype(1, names) if r.random() < 0.4 else None
             self.entities[n] = dict(parents=parents, attrs=attrs, tags=tags)
+        if r.random() < 0.5:
+            self.enums[r.choice(['Color', 'Level'])] = r.sample(['red', 'green', 'a', 'b'], r.randrange(1, 4))
         for a in r.sample(['view', 'edit', 'delete', 'share'], r.randrange(1, 4)):
             self.actions[a] = dict(principals=r.sample(names, r.randrange(1, min(3, len(names)) + 1)),
                                    resources=r.sample(names, r.randrange(1, min(3, len(names)) + 1)),
@@ -72,6 +75,8 @@ class Schema:
             if e['tags'] is not None:
                 s += ' tags ' + self.ttext(e['tags'])
             out.append(s + ';')
+        for n, ids in self.enums.items():
+            out.append('entity %s enum [%s];' % (n, ', '.join('"%s"' % i for i in ids)))
         for a, d in self.actions.items():
             out.append('action "%s" appliesTo { principal: [%s], resource: [%s], context: %s };' %
                        (a, ', '.join(d['principals']), ', '.join(d['resources']), self.rectext(d['context'])))
@@ -117,6 +122,21 @@ class Schema:
                     if e['tags'] is not None:
                         tags = [[S(k), self.value(e['tags'], ids)] for k in r.sample(['k', 't', 'x y', ''], r.randrange(0, 3))]
                     ents.append(['ent', gen.vent(n, i), ['parents'] + parents, ['attrs'] + attrs[1:], ['tags'] + tags])
+        # enumerated entities: usually absent or bare (conforming); sometimes with an undeclared id, parents, attributes or tags, which
+        # the validator's own conformance check must reject (the run is then not counted: an accepted one is evaluated)
+        for n, eids in self.enums.items():
+            for i in eids + ['zz']:
+                k = r.random()
+                if k < 0.5 or (i == 'zz' and k < 0.9):
+                    continue
+                parents, attrs, tags = [], [], []
+                if k > 0.8 and self.entities:
+                    parents = [gen.vent(r.choice(sorted(self.entities)), r.choice(ids))]
+                elif k > 0.75:
+                    attrs = [[S('a'), gen.vlong(1)]]
+                elif k > 0.7:
+                    tags = [[S('k'), gen.vlong(1)]]
+                ents.append(['ent', gen.vent(n, i), ['parents'] + parents, ['attrs'] + attrs, ['tags'] + tags])
         return ['store'] + ents
 
     def request(self):
@@ -252,10 +272,19 @@ class Schema:
         F = r.choice([['if', cond, f1, f2], ['if', cond, f2, f1], ['mkset', f1, f2], f1, ['mkset', f1], ['if', cond, ['mkset', f1], ['mkset', f2]]])
         opt = self.optional_paths(env)
         guards = [['in', E, F], ['in', E, F], ['in', E, F], ['is', E, S(t1)], ['isIn', E, S(t1), f2], ['eq', E, f1], ['ne', E, f1],
-                  ['not', ['in', E, F]], ['in', f1, F], ['or', ['in', E, f1], ['in', E, f2]]]
+                  ['not', ['in', E, F]], ['in', f1, F], ['or', ['in', E, f1], ['in', E, f2]],
+                  # tags / attributes of a union of entity types (permissive mode): present in one member type only
+                  ['hasTag', ['if', cond, f1, f2], lit(gen.vstr('k'))], ['hasTag', ['if', cond, f2, f1], lit(gen.vstr('t'))],
+                  ['has', ['if', cond, f1, f2], S(r.choice(['a', 'b', 'k', 'name', 'n']))], ['hasTag', E, lit(gen.vstr('k'))]]
         if opt:
             base, key, t = r.choice(opt)
             guards.append(['has', base, S(key)])
+        if self.enums:
+            en = r.choice(sorted(self.enums))
+            el = lit(gen.vent(en, r.choice(self.enums[en])))
+            # an enumerated entity has no ancestors, attributes or tags: the validator may rely on that only if conformance enforces it
+            guards += [['in', el, F], ['in', el, f1], ['in', el, ['mkset', f1, f2]], ['in', ['if', cond, el, f1], f2], ['eq', el, f1],
+                       ['in', E, el], ['in', el, el]] * 2
         G = r.choice(guards)
         bads = [['gt', ['add', lit(gen.vstr('a')), lit(gen.vlong(1))], lit(gen.vlong(0))], ['like', lit(gen.vlong(1)), ['pat', ['w']]],
                 ['contains', lit(gen.vlong(1)), lit(gen.vlong(1))], ['lt', lit(gen.vlong(1)), lit(gen.vstr('a'))]]
